@@ -878,7 +878,12 @@ func buildQuery(m protoreflect.Message, mutate int, seed uint64) url.Values {
 					containers = append(containers, name)
 				}
 			case 2:
-				// dotted paths to the scalar members of the nested message
+				// dotted paths to the scalar members of the nested message (not into the well-known
+				// and j5 scalar-like messages: timestamps, dates, decimals are not containers, and
+				// the query would fail on that whatever else it carries)
+				if n := string(sub.Descriptor().FullName()); strings.HasPrefix(n, "google.protobuf.") || strings.HasPrefix(n, "j5.types.") {
+					break
+				}
 				sf := sub.Descriptor().Fields()
 				for j := 0; j < sf.Len() && len(q) < 4; j++ {
 					sfd := sf.Get(j)
